@@ -70,6 +70,17 @@ def rotation_cases(tb, rnd, tier):
                                    sw={'product': 'OpenSSH', 'c': [9, 6], 'p': ['none', 0]})
                 c['tag'] = 'asymmetric-directions'
                 cases.append(c)
+            # next to what the other closing steps of the report do: an OpenSSH server whose group exchange measures 2048 bits (the
+            # fallback note and its recommendation handling run just before the Terrapin step), several ChaCha20-Poly1305 spellings at once
+            if role == 'server':
+                for enc, mac in ((cha + ['aes256-ctr'], ['hmac-sha2-256']), ([cbc[0], 'aes256-ctr'], [etm[0]]), (['aes256-ctr'], ['hmac-sha2-256'])):
+                    cid[0] += 1
+                    kex = ['curve25519-sha256', 'diffie-hellman-group-exchange-sha256'] + ([rating_marker(role)] if marker == 'own' else [])
+                    c = rating.mk_case(cid[0], role=role, kex=kex, key=['ssh-ed25519'], enc=enc, mac=mac, dh={'diffie-hellman-group-exchange-sha256': (2048, False)},
+                                       sw={'product': 'OpenSSH', 'c': [8, 9], 'p': ['p', 1]})
+                    c['tag'] = 'openssh-gex-2048'
+                    cases.append(c)
+            add(role, marker, cha + ['chacha20-poly1305@example.org', 'aes128-ctr'], [rnd.choice(other_mac)], 'several-chacha')
             # several at once, duplicates
             add(role, marker, cha + cbc[:3] + [cbc[0]], etm[:2] + [etm[0]], 'many+dups')
     return cases
